@@ -38,6 +38,15 @@ type SGhost struct {
 	X int `json:"x"`
 }
 
+// entName is the documented entity type name, computed independently of the library: the custom
+// StateTypeName if the entity provides one, else the reflection-based package-qualified type name.
+func entName(v any) string {
+	if n, ok := v.(interface{ StateTypeName() string }); ok {
+		return n.StateTypeName()
+	}
+	return reflect.TypeOf(v).String()
+}
+
 var stateKeys = []string{"k1", "k2", "a/b", "user/1/x", "/", "k1/"}
 
 type C18Msg struct {
@@ -228,7 +237,7 @@ type c18Fold struct {
 
 func (f *c18Fold) apply(m C18Msg) {
 	coll := []string{"user", "order", "named"}
-	types := []string{state.EntityType(SUser{}), state.EntityType(SOrder{}), state.EntityType(SNamed{})}
+	types := []string{entName(SUser{}), entName(SOrder{}), entName(SNamed{})}
 	switch m.Op {
 	case "reset":
 		f.state = map[string]string{}
@@ -368,7 +377,7 @@ func (sc *C18Scenario) Execute(t *testing.T) *core.Outcome {
 			out.V("control-callbacks", "single session: onReset called %d times (expected %d), onSnapshot calls %v (expected %v)", twin.resets, fold.resets, twin.snaps, fold.snaps)
 		}
 		// Get agrees with All, per key
-		types := []string{state.EntityType(SUser{}), state.EntityType(SOrder{}), state.EntityType(SNamed{})}
+		types := []string{entName(SUser{}), entName(SOrder{}), entName(SNamed{})}
 		for _, key := range stateKeys {
 			u, ok := mat.users.Get(key)
 			_, inFold := fold.state["user|"+state.CompositeKey(types[0], key)]
